@@ -67,7 +67,10 @@ pub fn run(args: &Args) {
             let mut a = art.unwrap();
             for h in hist.iter() { verif::record_history(&mut a, h); recorded.push(h.clone()); }
             let hist: Vec<State> = recorded.iter().filter(|h| **h != state).cloned().collect();
-            let hist_hashes: Vec<String> = hist.iter().map(|h| format!("{:016x}", verif::artifact_hash(&a, h))).collect();
+            // keys the searcher's history holds during this search: everything recorded so far plus the root itself
+            let mut hist_hashes: Vec<String> = recorded.iter().map(|h| format!("{:016x}", verif::artifact_hash(&a, h))).collect();
+            hist_hashes.push(format!("{:016x}", verif::artifact_hash(&a, &state)));
+
             out.ev(json!({"ev": "SearchStart", "sid": sid, "step": si, "root": pos_json(&state), "fen": st["fen"], "depth": depth.map(|d| d as i64).unwrap_or(-1), "seed": seed.to_string(),
                           "workers": workers.unwrap_or(0), "fresh": fresh, "history": hist.iter().map(pos_json).collect::<Vec<_>>(), "history_keys": hist_hashes,
                           "root_key": format!("{:016x}", verif::artifact_hash(&a, &state)),
